@@ -188,15 +188,112 @@ fn sub_fixed(input: &[u8], st: &mut Stats) -> R {
     check_file(&bytes, st, &|| format!("fixed file #{}", k))
 }
 
+/// one file per kind of loading error (every ParseState variant, decoder errors of several
+/// kinds, every structural loader error), plus the negative sweep variants by index
+fn sub_error_kinds(input: &[u8], st: &mut Stats) -> R {
+    let k = idx(input) as usize;
+    let hdr = header_words((1, 3), 50);
+    let f = |insts: &[&[u32]]| -> Vec<u8> {
+        let mut w = hdr.clone();
+        for i in insts {
+            w.extend_from_slice(i);
+        }
+        words_to_bytes(&w)
+    };
+    const FUNC: &[u32] = &[0x0005_0036, 1, 2, 0, 3];
+    const END: &[u32] = &[0x0001_0038];
+    const LABEL: &[u32] = &[0x0002_00f8, 4];
+    const RET: &[u32] = &[0x0001_00fd];
+    const NOP: &[u32] = &[0x0001_0000];
+    let crafted: Vec<Vec<u8>> = vec![
+        vec![1, 2, 3],                                         // header incomplete
+        words_to_bytes(&[0x1234_5678, 0, 0, 0, 0]),             // header incorrect
+        words_to_bytes(&[MAGIC.swap_bytes(), 0, 0, 0, 0]),      // endianness
+        f(&[&[0x0000_0000]]),                                   // zero word count
+        f(&[&[0x0001_ffff]]),                                   // unknown opcode
+        f(&[&[0x0002_000e, 0]]),                                // OpMemoryModel: operand expected
+        f(&[&[0x0002_0000, 7]]),                                // OpNop with a surplus word
+        f(&[&[0x0003_0011, 1]]),                                // extent leaves the stream
+        f(&[&[0x0002_0011, 0xffff]]),                           // CapabilityUnknown
+        f(&[&[0x0003_000e, 99, 0]]),                            // AddressingModelUnknown
+        f(&[&[0x0003_0047, 1, 0x7777]]),                        // DecorationUnknown
+        f(&[&[0x0005_0036, 1, 2, 0x8000_0000, 3]]),             // FunctionControlUnknown (mask)
+        f(&[&[0x0003_0004, 0x6162_6364, 0x6566_6768]]),         // string without NUL: limit reached
+        f(&[&[0x0002_0004, 0x0000_ffc3]]),                      // invalid UTF-8
+        f(&[&[0x0004_0015, 1, 24, 0], &[0x0004_002b, 1, 2, 5]]), // TypeUnsupported
+        f(&[&[0x0004_0034, 1, 2, 0xffff]]),                     // SpecConstantOp: unknown embedded opcode
+        f(&[&[0x0004_0034, 1, 2, 0x0001_0080]]),                // SpecConstantOp: number wider than 16 bits
+        f(&[&[0x0005_0034, 1, 2, 43, 7]]),                      // SpecConstantOp embedding OpConstant
+        f(&[&[0x0005_0034, 1, 2, 52, 128]]),                    // SpecConstantOp embedding OpSpecConstantOp
+        f(&[FUNC, FUNC]),                                       // NestedFunction
+        f(&[FUNC]),                                             // UnclosedFunction
+        f(&[END]),                                              // MismatchedFunctionEnd
+        f(&[&[0x0003_0037, 1, 2]]),                             // DetachedFunctionParameter
+        f(&[LABEL]),                                            // DetachedBlock
+        f(&[FUNC, LABEL, LABEL]),                               // NestedBlock
+        f(&[FUNC, LABEL, END]),                                 // UnclosedBlock
+        f(&[FUNC, LABEL]),                                      // unclosed block at end of stream
+        f(&[RET]),                                              // MismatchedTerminator
+        f(&[NOP]),                                              // DetachedInstruction
+        f(&[FUNC, &[0x0004_003b, 1, 5, 7], END]),               // variable outside a block inside a function
+    ];
+    let bytes: Vec<u8> = if k < crafted.len() {
+        crafted[k].clone()
+    } else {
+        // negative variants of sweep instructions (a stride through the sweep)
+        let cases = crate::sweep::cases();
+        let ci = ((k - crafted.len()) * 37) % cases.len();
+        let case = &cases[ci];
+        let Some((prelude, p)) = crate::sweep::build(case, ci as u64 * 8 + 5) else { return Ok(()) };
+        let mut w = hdr.clone();
+        for q in &prelude {
+            w.extend(q.words());
+        }
+        let mut v = p.words();
+        match k % 3 {
+            0 => {
+                if v.len() > 1 {
+                    v.pop();
+                    v[0] = ((v.len() as u32) << 16) | p.opcode;
+                }
+            }
+            1 => {
+                if let Some(last) = v.last_mut() {
+                    *last = 0x7fff_fff1;
+                }
+            }
+            _ => {
+                v.push(3);
+                v[0] = ((v.len() as u32) << 16) | p.opcode;
+            }
+        }
+        w.extend(v);
+        words_to_bytes(&w)
+    };
+    let before = st.counters.get("files_error_message").copied().unwrap_or(0);
+    check_file(&bytes, st, &|| format!("error-kind file #{}", k))?;
+    if st.counters.get("files_error_message").copied().unwrap_or(0) > before {
+        // remember which kinds of messages were seen
+        if let Ok(Err(e)) = crate::engine::no_panic("load", || rspirv::dr::load_bytes(&bytes)) {
+            let m = format!("{}", e);
+            let key: String = m.chars().filter(|c| !c.is_ascii_digit()).take(48).collect();
+            st.set_insert("error_messages", key);
+        }
+    }
+    Ok(())
+}
+
 pub const SUBS: &[Sub] = &[
+    Sub { name: "error-kinds", f: sub_error_kinds },
     Sub { name: "fixed-files", f: sub_fixed },
     Sub { name: "files", f: sub_files },
 ];
 
 pub fn run(ctx: &Ctx) {
     run_regress(ctx, SUBS);
-    drive_enum(ctx, &SUBS[0], 8);
-    drive_random(ctx, &SUBS[1], ctx.n(1_500, 300_000), 1400);
+    drive_enum(ctx, &SUBS[0], 30 + ctx.n(150, 10_000));
+    drive_enum(ctx, &SUBS[1], 8);
+    drive_random(ctx, &SUBS[2], ctx.n(1_500, 300_000), 1400);
     let _ = std::fs::remove_dir_all(verif_root().join("target/c20-tmp"));
 }
 
